@@ -240,6 +240,20 @@ fn replay_chunk(cases: &[Value], rep: &mut Report) {
               let exp_net = if name == "iota" { None } else { Some(name.as_str()) };
               acc = check_accepted(&v, exp_net, &tag_lc, &mut errs);
             }
+            // the other constructor takes the tag as caller-supplied hex: lower case, upper case and mixed spellings of the
+            // same bytes give the SAME DID as `new`
+            if b(&out["valid"]) {
+              let exp_net = if name == "iota" { None } else { Some(name.as_str()) };
+              let upper = format!("0x{}", bytes.iter().map(|x| format!("{x:02X}")).collect::<String>());
+              let mixed: String = tag_lc.chars().enumerate().map(|(k, c)| if k >= 2 && k % 3 == 0 { c.to_ascii_uppercase() } else { c }).collect();
+              for spelling in [tag_lc.clone(), upper, mixed] {
+                let a = IotaDID::from_alias_id(&spelling, &nn);
+                if a != v || a.to_string() != v.to_string() {
+                  errs.push(("from_alias_id_differs_from_new".into(), format!("from_alias_id({spelling:?}) = {a}, new = {v}")));
+                }
+                let _ = check_accepted(&a, exp_net, &tag_lc, &mut errs);
+              }
+            }
             let ph = IotaDID::placeholder(&nn);
             if !ph.is_placeholder() || ph.network_str() != name {
               errs.push(("placeholder_ctor".into(), format!("{ph}")));
